@@ -5,7 +5,8 @@ From Coq Require Import List ZArith Bool.
 From Orso Require Import Model.C04 Proofs.C04.
 Import ListNotations.
 
-(* Materialised frame, any history of fetches / arraysize changes / observers: the row
+(* Materialised frame, any history of fetches / arraysize changes / observers / append calls
+   that FAIL (AppendBad: is_append is true only of an append that stored its row): the row
    store is unchanged, and what was fetched, concatenated, is the prefix of the frame of
    exactly that length - nothing skipped, nothing repeated, order kept. *)
 Theorem C04_eager_prefix :
@@ -64,7 +65,48 @@ Proof.
 Qed.
 Print Assumptions C04_append_then_refuse.
 
-(* Lazily backed frame read only through the cursor: fetched ++ not-yet-yielded is the
+(* One append call on a materialised frame is all or nothing.  An accepted entry is stored
+   at the end, the cursor is dropped, and the store length reported is the new one; a call
+   that raises (entry rejected by validation, by the row factory or by the size computation)
+   leaves the whole state - rows, cursor, arraysize - exactly as it was. *)
+Theorem C04_append_atomic :
+  forall (A : Type) (s : st A) (r : A),
+  lazy s = false ->
+  (let '(s1, x1) := step s (Append r) in
+     rows s1 = rows s ++ [r] /\ cur s1 = None /\ x1 = OAppend true (Some (length (rows s1)))) /\
+  (let '(s2, x2) := step s (AppendBad r) in
+     s2 = s /\ x2 = OAppend false (Some (length (rows s)))).
+Proof. exact append_atomic. Qed.
+Print Assumptions C04_append_atomic.
+
+(* EVERY history on an eagerly created frame, with stored appends and failed appends anywhere:
+   the row store is the original rows followed by exactly the rows the successful appends
+   stored; the fetched rows, concatenated, are a prefix of the original rows (nothing stale,
+   nothing appended is ever handed out); the cursor is gone iff some append stored a row. *)
+Theorem C04_any_history :
+  forall (A : Type) (l : list A) (ops : list (op A)),
+  let '(s', xs) := run (init_eager l) ops in
+  rows s' = l ++ appended ops /\ lazy s' = false /\
+  fetched xs = firstn (length (fetched xs)) l /\ length (fetched xs) <= length l /\
+  cur s' = (if existsb is_append ops then None else Some (length (fetched xs))).
+Proof. exact any_history. Qed.
+Print Assumptions C04_any_history.
+
+(* At every point of every such history: the frame has grown <-> the cursor is gone (and then
+   C04_append_then_refuse applies: every fetch refuses); the frame still has its original
+   length <-> the cursor is live and stands right after the rows delivered so far (and then
+   the next fetch continues from there).  There is no state in which the frame has grown and
+   a fetch still runs - whichever way the append calls ended. *)
+Theorem C04_grown_iff_cursor_gone :
+  forall (A : Type) (l : list A) (ops : list (op A)),
+  let '(s', xs) := run (init_eager l) ops in
+  (length l < length (rows s') <-> cur s' = None) /\
+  (length (rows s') = length l <-> cur s' = Some (length (fetched xs))).
+Proof. exact grown_iff_dead. Qed.
+Print Assumptions C04_grown_iff_cursor_gone.
+
+(* Lazily backed frame read only through the cursor (failed append calls allowed: they leave
+   the generator alone): fetched ++ not-yet-yielded is the
    original row sequence (so the fetched rows are a prefix, in order, none skipped or
    repeated); fetchmany returns min(k, remaining); after exhaustion None / []. *)
 Theorem C04_lazy_cursor_only :
@@ -85,3 +127,15 @@ Example C04_nonvacuous :
   snd (run (init_eager [10; 11; 12; 13]%Z) ops) =
     [ORow (Some 10%Z); OUnit; OUnit; ORows [11; 12]%Z; ORows [13]%Z; ORow None].
 Proof. split; reflexivity. Qed.
+
+(* Non-vacuity for the append theorems: a failed append in mid-history changes nothing (the
+   cursor carries on with row 11), a stored one ends the cursor; the outputs report the store
+   length after each call. *)
+Example C04_nonvacuous_append :
+  let ops := [FetchOne; AppendBad 99; FetchOne; Append 1000; FetchOne; AppendBad 98; FetchAll]%Z in
+  forallb (fun o => negb (is_append o)) (firstn 3 ops) = true /\
+  existsb is_append ops = true /\ appended ops = [1000%Z] /\
+  snd (run (init_eager [10; 11; 12]%Z) ops) =
+    [ORow (Some 10%Z); OAppend false (Some 3); ORow (Some 11%Z); OAppend true (Some 4);
+     ORaise; OAppend false (Some 4); ORaise].
+Proof. repeat split; reflexivity. Qed.
